@@ -15,7 +15,7 @@ import (
 
 func configs(sizes []int) []wops.Cfg {
 	var out []wops.Cfg
-	for _, ctor := range []string{"NewWriterSize", "NewWriterBufferSize", "NewWriterBuffer", "GetWriter"} {
+	for _, ctor := range []string{"NewWriterSize", "NewWriterBufferSize", "NewWriterBuffer", "NewWriterBuffer/spare-cap", "GetWriter"} {
 		for _, n := range sizes {
 			for _, client := range []bool{false, true} {
 				for _, nf := range []bool{false, true} {
